@@ -5,6 +5,6 @@ cd "$(dirname "$0")"
 export GOFLAGS=-mod=mod GOPROXY=off
 ( cd lean && lake build )
 mkdir -p bin evidence
-cp /repo/go.sum harness/go.sum
-( cd harness && go build -tags verif -o ../bin/fdharness ./cmd/fdharness )
+cp harness/go.mod harness/go.alt-build.mod && cp /repo/go.sum harness/go.alt-build.sum
+( cd harness && go build -modfile=go.alt-build.mod -tags verif -o ../bin/fdharness ./cmd/fdharness )
 echo setup ok
